@@ -21,7 +21,13 @@ func (w *World) checkLiveness() {
 			continue
 		}
 		if p.Round > w.roundAtGST[p.ID]+w.liveBound() {
-			w.fail("C06", "round_bound_exceeded", "bound",
+			key := "bound"
+			if w.lotteryExplains(p.ID, p.Round) {
+				// every recent round was lost because the best-ticket value was not on some
+				// member's own EC chain: termination then hinges on the ticket lottery
+				key = "incompatible-inputs-lottery"
+			}
+			w.fail("C06", "round_bound_exceeded", key,
 				"member %d is in round %d of instance %d without a decision; round at stabilisation was %d, bound +%d (byzantine messages sent: %v)",
 				m.ID, p.Round, p.ID, w.roundAtGST[p.ID], w.liveBound(), w.byzEverSent)
 			return
@@ -48,4 +54,27 @@ func (w *World) finalLiveness() {
 		}
 	}
 	w.r.Probe("liveness_inconclusive_step_cap")
+}
+
+// noteIncompatibleBest records that in (instance k, round r) some honest member's best-ticket
+// CONVERGE value was not a prefix of that member's own input.
+func (w *World) noteIncompatibleBest(k, r uint64) {
+	if w.incompat == nil {
+		w.incompat = map[[2]uint64]int{}
+	}
+	w.incompat[[2]uint64{k, r}]++
+}
+
+// lotteryExplains: in each of the last 8 completed rounds some honest member could not adopt the
+// best-ticket value because it is not on its own EC chain.
+func (w *World) lotteryExplains(k, round uint64) bool {
+	if round < 9 {
+		return false
+	}
+	for r := round - 8; r < round; r++ {
+		if w.incompat[[2]uint64{k, r}] == 0 {
+			return false
+		}
+	}
+	return true
 }
